@@ -11,7 +11,7 @@ REPLAYS = os.path.join(HERE, "replays")
 KF_FILE = os.path.join(HERE, "known_findings.json")
 KANI_FLAGS = ["--no-default-features", "-Z", "stubbing", "-Z", "unstable-options"]
 
-HEAVY_JOBS = int(os.environ.get("VERIF_HEAVY_JOBS", "5"))
+HEAVY_JOBS = int(os.environ.get("VERIF_HEAVY_JOBS", "3"))
 QUICK_TIMEOUT = int(os.environ.get("VERIF_QUICK_HARNESS_TIMEOUT", "720"))
 THOROUGH_TIMEOUT = int(os.environ.get("VERIF_THOROUGH_HARNESS_TIMEOUT", "2700"))
 
@@ -183,7 +183,10 @@ class GroupRun:
             "--harness-timeout", "%ds" % self.timeout_s, "-j", str(self.jobs), "--exact"] + self.extra
         for h in self.harnesses:
             cmd += ["--harness", h.path]
-        sh = "ulimit -v %d; exec %s" % (self.mem_kb, " ".join(shlex.quote(c) for c in cmd))
+        # no `ulimit -v` here: it also applies to kani-driver, which aborts ("memory allocation failed",
+        # all remaining harnesses of the group lost) when parsing large CBMC outputs with -j threads, and it
+        # turns CBMC checks into `Status: ERROR`.  Memory is bounded by the job limits (HEAVY_JOBS) instead.
+        sh = "exec %s" % " ".join(shlex.quote(c) for c in cmd)
         self.t0 = time.time()
         self.logf = open(os.path.join(os.path.dirname(self.ov), "kani-%s%s.log" % (self.kind, os.path.basename(self.target))), "w+")
         self.proc = subprocess.Popen(["bash", "-c", sh], cwd=self.ov, env=env_for_kani(),
@@ -256,7 +259,7 @@ def is_user_location(loc):
 def classify(h, res, known_tags):
     """-> dict(state, failures, known, covers, notes)"""
     out = {"state": "ok", "failures": [], "lib_failures": [], "known": [], "unwind": [], "covers_sat": 0, "covers_total": 0,
-           "covers_unsat": [], "n_checks": 0, "n_success": 0, "n_unreachable": 0, "n_undetermined": 0}
+           "covers_unsat": [], "n_checks": 0, "n_success": 0, "n_unreachable": 0, "n_undetermined": 0, "n_error": 0}
     for c in res["checks"]:
         is_cover = ".cover." in c["name"] or c["status"] in ("SATISFIED", "UNSATISFIABLE")
         if is_cover:
@@ -274,6 +277,10 @@ def classify(h, res, known_tags):
             out["n_unreachable"] += 1
         elif st == "UNDETERMINED":
             out["n_undetermined"] += 1
+        elif st == "ERROR":
+            # CBMC could not decide this check (solver error, typically memory exhausted under the
+            # ulimit): NOT a failure - the harness is inconclusive
+            out["n_error"] += 1
         elif st == "FAILURE":
             if "unwinding assertion" in c["desc"] or ".unwind." in c["name"]:
                 out["unwind"].append(c)
@@ -290,7 +297,9 @@ def classify(h, res, known_tags):
                     out["lib_failures"].append(c)
         else:
             out["failures"].append(c)
-    if out["failures"]:
+    if out["n_error"]:
+        out["state"] = "solver_error(out of memory?)"
+    elif out["failures"]:
         out["failures"] += out["lib_failures"]
         out["state"] = "violation"
     elif out["lib_failures"]:
@@ -339,7 +348,14 @@ def concrete_playback(h, scratch, prop):
         for f in failed:
             fh.write("// failed: %s\n" % f)
         fh.write(body if body else "// (kani produced no concrete test: the failing check has no kani::any input)\n")
-    if not body or h.stubs or h.kind == "p":
+    # The playback run is also a second, independent solver run of the same harness.  Three times a
+    # first run reported failures (library pointer checks, or harness-internal index checks) that a
+    # second run did not: such a non-reproducible verdict is an engine artefact, never a violation.
+    rerun_failed = bool(failed) or "VERIFICATION:- FAILED" in r.stdout
+    if not rerun_failed:
+        return path, False
+    has_failing_test = any("Check for `cover`" not in t for t in tests)
+    if not body or not has_failing_test or h.stubs or h.kind == "p":
         return path, None
     confirmed = native_playback(h, scratch, body)
     return path, confirmed
@@ -409,11 +425,11 @@ def run_property(prop, tier, only=None, keep=False, seed=0):
         for k in kinds:
             overlay_stats[k] = overlay.make(k, os.path.join(scratch, "ov-" + k))
         per_to = QUICK_TIMEOUT if tier == "quick" else THOROUGH_TIMEOUT
-        mem_kb = (14 if tier == "quick" else 28) * 1024 * 1024
+        mem_kb = (22 if tier == "quick" else 30) * 1024 * 1024
         # deterministic order; the seed only permutes scheduling
         hs.sort(key=lambda h: (hash((h.name, seed)) if seed else 0, h.name))
         groups = []
-        total_jobs = 16
+        total_jobs = int(os.environ.get("VERIF_JOBS", "13"))
         light = {k: [h for h in hs if h.kind == k and not h.heavy] for k in kinds}
         heavy = {k: [h for h in hs if h.kind == k and h.heavy] for k in kinds}
         n_groups = sum(1 for k in kinds if light[k]) + sum(1 for k in kinds if heavy[k])
@@ -486,7 +502,7 @@ def run_property(prop, tier, only=None, keep=False, seed=0):
             for c in cl["failures"][:5]:
                 log("  failed: %s @ %s" % (c["desc"], c["loc"]))
             if confirmed is False or (cl["state"] == "suspect" and confirmed is not True):
-                log("UNCONFIRMED property=%s harness=%s: the solver counterexample did not reproduce natively%s (%s)"
+                log("UNCONFIRMED property=%s harness=%s: the solver counterexample did not reproduce (second solver run or native playback)%s (%s)"
                     % (prop, h.name, " (only library-internal checks failed: treated as an engine artefact)" if cl["state"] == "suspect" else "", path))
                 exit_code = max(exit_code, 2)
                 notes.append("%s: unconfirmed counterexample" % h.name)
@@ -533,6 +549,17 @@ def run_property(prop, tier, only=None, keep=False, seed=0):
         if keep:
             log("scratch kept at " + scratch)
         else:
+            if exit_code == 2:
+                # keep the kani logs of an inconclusive run for diagnosis (small text files)
+                try:
+                    dst = os.path.join(CACHE, "last-inconclusive-%s" % prop)
+                    shutil.rmtree(dst, ignore_errors=True)
+                    os.makedirs(dst)
+                    for f in os.listdir(scratch):
+                        if f.endswith(".log"):
+                            shutil.copy2(os.path.join(scratch, f), dst)
+                except Exception:
+                    pass
             shutil.rmtree(scratch, ignore_errors=True)
 
 
